@@ -78,6 +78,14 @@ CLAIMED = {
          "function; mutual exclusion, frame-once, merge order and deadlock clauses are also judged on the traces themselves.",
          "Lean kernel + three standard axioms; harness scheduler and hooks (commit 7e4ea0bfd); mutexes as binary semaphores; unordered mode: no theorem, budget clause is a recorded finding; OS scheduling/memory model not modelled.",
          "6/C05"),
+ "C10": ("Lean 4 proof by a 15-clause invariant over all reachable states of a transition-system model of the job-file protocol for every process count, cache "
+         "size, job count and interleaving (no job executed twice, results kept), lock mode regenerated from the source, back-up/write order crash "
+         "consistency + replay of real forked ProgObserver processes under controlled interleaving and kill injection (VOTCA_VERIF hooks)",
+         "assigned_once / result_kept hold for all P, c, J and all crash-free interleavings with the lock mode the translator reads from "
+         "progressobserver.cc; the model is tied to the working tree by running 1..4 real processes on one job file, interleaved and killed at the hook "
+         "points, replaying every trace on the model and judging assigned-once, nothing-lost, results-kept, lock exclusion and one-complete-copy on the traces.",
+         "Lean kernel + three standard axioms; hooks (commits 8d4c01644, 541b02a2b); fcntl semantics as observed; PARTIAL: maxjobs and restart patterns neither modelled nor claimed; crash transitions judged by trace predicates only.",
+         "6/C10"),
 }
 REASONS = {}
 
@@ -106,7 +114,7 @@ def main():
             "guard": "VOTCA_VERIF",
             "enable": "checks compile /repo sources themselves (tools/vbuild.py) with -DVOTCA_VERIF; /repo/_build is never used",
             "baseline_off_cmd": "python3 tools/baseline.py",
-            "source_commits": ["7e4ea0bfd"],
+            "source_commits": ["7e4ea0bfd", "8d4c01644", "541b02a2b"],
             "add_only": True,
         },
         "engines": [
